@@ -262,3 +262,108 @@ Theorem c09_relay_exact_set : forall st ix,
              exists d, In (s, d) (st_sess st) /\ info_eligible st ix (s, d) = true).
 Proof. exact info_exact_set. Qed.
 Print Assumptions c09_relay_exact_set.
+
+(* ---- notes on p2p / group topics with UNSUBSCRIBED (deleted) parties, and the {info} copies routed through the
+   'me' topics (presence slice Sys/Pres.v, built for C10: several users, 'me' + p2p + group topics side by side,
+   a network of in-flight inter-topic notifications delivered in any interleaving; Sys/PresNoteC09.v adds the
+   Info.From label).  The group-topic model above has neither deleted p2p parties nor 'me' topics.  The clauses
+   "a mark moves only when its user ... sends a note while subscribed with read permission", "every invalid note is
+   dropped without any reply or side effect", "never the originating session", "name the true sender" are stated
+   here for that slice; the C09 check runs the presence driver on note scenarios and evaluates the laws
+   note-from-unsubscribed-user-silent, invalid-/stale-/unpermitted-note-silent, info-not-to-originating-session,
+   info-names-true-sender, info-names-recipients-topic on the IMPLEMENTATION's frames, adapter calls and marks
+   (tools/props/c09.py pres_notes). *)
+From Tinode Require Import Sys.Pres Sys.PresProofs Sys.PresLeak Sys.PresNoteC09 Sys.PresNoteC09Proofs.
+
+(* A {note} of any kind, with any seq, through any session, from a user who has no live subscription to the topic
+   - never subscribed, or unsubscribed: a p2p party keeps its perUser entry marked deleted, WITH its old want/given -
+   leaves the whole state as it was (every cached and stored mark of every user, the network: nothing is routed to
+   any 'me' topic) and hands no frame to anybody.  Every state, reachable or not. *)
+Theorem c09_pres_note_unsubscribed_silent : forall s sid u r w seq,
+  live_sub s (resolve u r) u = false ->
+  step s (Note sid u r w seq) = (s, []) \/ step s (Note sid u r w seq) = (s, [Skipped]).
+Proof. exact step_note_unsubscribed. Qed.
+
+(* ... and so does every other note that is not acceptable: sender without R (W for typing), seq not in
+   (current mark, lastID] (0 for typing), unknown kind, topic not loaded, anything but "recv" from a session that
+   is not attached.  ([Skipped] = the request the driver does not send: refused at the session with 409.) *)
+Theorem c09_pres_invalid_note_silent : forall s sid u r w seq,
+  note_acceptable s sid u (resolve u r) w seq = false ->
+  step s (Note sid u r w seq) = (s, []) \/ step s (Note sid u r w seq) = (s, [Skipped]).
+Proof. exact step_note_silent. Qed.
+
+(* never the originating session, inside the topic ... *)
+Theorem c09_pres_info_not_to_origin_in_topic : forall s sid u t w seq sid' user top src w',
+  In (Frame sid' user top src w') (snd (note_op s sid u t w seq)) -> sid' <> sid.
+Proof. exact note_frames_not_origin. Qed.
+
+(* ... whatever a note puts in flight (the {pres read|recv} for the sender's other sessions, the {info} for every
+   'me' topic - the SENDER's own included) carries SkipSid = the originating session; an {info} carries From = the
+   sender and SkipTopic = the topic ... *)
+Theorem c09_pres_note_in_flight_tagged : forall s sid u t w seq g,
+  In g (s_net (fst (note_op s sid u t w seq))) -> In g (s_net s) \/ note_tag sid u t w g.
+Proof. exact adds_note_tag. Qed.
+
+(* ... and a delivery never hands a message to the session its SkipSid names (any destination, any state). *)
+Theorem c09_pres_skipsid_respected : forall s g k user top src w,
+  m_skipsid g = Some k -> ~ In (Frame k user top src w) (snd (deliver_msg s g)).
+Proof. exact deliver_skipsid. Qed.
+
+(* Only a {note} puts an {info} in flight: in every reachable state, every {info} in flight was made by a {note} of
+   the history, and carries that note's session as SkipSid, its user as From, its topic as SkipTopic. *)
+Theorem c09_pres_info_provenance : forall h, Forall (note_sent h) (s_net (fst (run init h))).
+Proof. exact net_note_sent. Qed.
+
+(* END TO END over all histories and all interleavings of deliveries: an {info} frame a session reads when an
+   in-flight message is delivered - i.e. through a 'me' topic - names as From the user of a {note} of the same kind
+   that is in the history; that note came through ANOTHER session; the reading session is not attached to the
+   note's topic; the frame arrives on the reader's own 'me'; a typing note reaches no session of the typist. *)
+Theorem c09_pres_info_end_to_end : forall h i g rest sid user top src w f,
+  take_nth i [] (s_net (fst (run init h))) = Some (g, rest) ->
+  In (Frame sid user top src w, f) (snd (step_from (fst (run init h)) (Deliver i))) ->
+  is_info w = true ->
+  exists sid0 u0 r0 seq0,
+    In (Note sid0 u0 r0 w seq0) h /\ r0 <> RMe /\ f = Some u0 /\ sid <> sid0 /\
+    sess_on (fst (run init h)) sid (resolve u0 r0) = false /\
+    (w = WIKp -> user <> u0) /\ top = TMe user.
+Proof. exact info_end_to_end. Qed.
+
+(* inside the topic every frame of a note names the user the note was sent as *)
+Theorem c09_pres_info_names_sender_in_topic : forall s sid u r w seq fr f,
+  In (fr, f) (snd (step_from s (Note sid u r w seq))) -> f = Some u.
+Proof. exact note_from_sender. Qed.
+
+(* the labelled run is the run of Sys/Pres.v with a label added: same states, same frames *)
+Theorem c09_pres_labelled_run_projects : forall h s,
+  fst (run_from s h) = fst (run s h) /\ map fst (snd (run_from s h)) = snd (run s h).
+Proof. exact run_from_proj. Qed.
+
+(* the hypotheses are satisfiable, on the two seeded situations: (1) user 1 unsubscribed from the p2p topic, which
+   stays loaded, keeps R in the deleted entry, recv mark 0 < 1 <= lastID - the note changes nothing; (2) a "recv"
+   from a session attached to 'me' only reaches the partner's attached session with From = the sender and is not
+   echoed to the originating session on 'me'. *)
+Theorem c09_pres_unsubscribed_recv_example :
+  let s := fst (run init h_unsub_recv) in
+  s_net s = [] /\ live_sub s (TP2P 1 2) 1 = false /\
+  (exists x, get_top s (TP2P 1 2) = Some x /\ t_loaded x = true /\ t_lastid x = 1%Z /\
+             is_reader (p_mode (get_pud x 1)) = true /\ p_recv (get_pud x 1) = 0%Z) /\
+  step s (Note 1 1 (RP2P 2) WIRecv 1) = (s, []).
+Proof. exact unsub_recv_silent. Qed.
+
+Theorem c09_pres_detached_recv_example :
+  (forall user top src w f, ~ In (Frame 3 user top src w, f) (snd (run_from init h_detached_recv)) \/ is_info w = false) /\
+  In (Frame 2 2 (TP2P 1 2) (TMe 1) WIRecv, Some 1%N) (snd (run_from init h_detached_recv)) /\
+  s_net (fst (run_from init h_detached_recv)) = [].
+Proof. exact detached_recv_not_echoed. Qed.
+
+Print Assumptions c09_pres_note_unsubscribed_silent.
+Print Assumptions c09_pres_invalid_note_silent.
+Print Assumptions c09_pres_info_not_to_origin_in_topic.
+Print Assumptions c09_pres_note_in_flight_tagged.
+Print Assumptions c09_pres_skipsid_respected.
+Print Assumptions c09_pres_info_provenance.
+Print Assumptions c09_pres_info_end_to_end.
+Print Assumptions c09_pres_info_names_sender_in_topic.
+Print Assumptions c09_pres_labelled_run_projects.
+Print Assumptions c09_pres_unsubscribed_recv_example.
+Print Assumptions c09_pres_detached_recv_example.
